@@ -272,7 +272,8 @@ def job_bams(job):
                             data = prog._locus_data(loc, sample_bams)
                             tag = "letters=%s|mq=%d|skipdup=%s|skipqc=%s|skipsupp=%s|id=%s" % (labels, mq, sd, sq, ss, idf)
                             try:
-                                prog.encode_sample_reads(data)
+                                with env.app_warnings():
+                                    prog.encode_sample_reads(data)
                             except Exception as e:  # noqa
                                 e = synth.root_cause(e)
                                 r.violation("encode-exception|%s|letters=%s" % (type(e).__name__, labels), "%s: %s (%s)" % (type(e).__name__, e, tag), payload)
@@ -394,7 +395,8 @@ def job_refcheck(job):
                                      mapping_quality=0, info_fields=INFO.DEFAULT_FIELDS, format_fields=FORMAT.DEFAULT_FIELDS)
             data = prog._locus_data(loc_ok, prog.sample_bams)
             try:
-                prog.encode_sample_reads(data)
+                with env.app_warnings():
+                    prog.encode_sample_reads(data)
                 r.violation("ref-alignment-vs-snv-app|pos=%d|base=%s|listed-alt=%s" % (p, wrong, listed), "encode_sample_reads used reads whose alignment reference disagrees with the SNV file", payload)
             except Exception as e:  # noqa
                 if not isinstance(synth.root_cause(e), ValueError):
